@@ -42,7 +42,18 @@ func (c *emuCircuit[T]) Define(api frontend.API) error {
 	case "inverse":
 		out(f.Inverse(a))
 	case "sqrt":
-		out(f.Mul(f.Sqrt(a), f.Sqrt(a)))
+		// either root is a legitimate answer: use the one the circuit was given, once
+		s := f.Sqrt(a)
+		out(f.Mul(s, s))
+	case "short":
+		// operands with fewer limbs than the modulus (bit recompositions, selections of small constants)
+		bits := f.ToBitsCanonical(a)
+		x := f.FromBits(bits[:20]...)
+		y := f.Select(bits[0], f.One(), f.Zero())
+		r := f.Sub(x, y)
+		r2 := f.Neg(x)
+		r3 := f.Sub(f.One(), y)
+		out(f.Add(f.Add(f.Mul(r, cc), r2), r3))
 	case "long":
 		// additions and lazy multiplications until the overflow bookkeeping forces reductions
 		x := a
@@ -102,6 +113,13 @@ func evalChain(chain string, p, a, b, c *big.Int) (res *big.Int, sat bool, any b
 	case "sqrt":
 		// a is drawn as a square: sqrt(a)^2 == a
 		return m(r.Set(a)), true, false
+	case "short":
+		am := new(big.Int).Mod(a, p)
+		x := new(big.Int).And(am, big.NewInt(1<<20-1))
+		y := big.NewInt(int64(am.Bit(0)))
+		rr := new(big.Int).Sub(x, y)
+		rr.Mul(rr, c).Sub(rr, x).Add(rr, big.NewInt(1)).Sub(rr, y)
+		return m(rr), true, false
 	case "long":
 		x := new(big.Int).Set(a)
 		for i := 0; i < 24; i++ {
@@ -270,7 +288,7 @@ func classifyEmulated(honest, faulted []hintCall, planned map[int]bool, q *big.I
 	return "?"
 }
 
-var emuChains = []string{"mul", "muladdsub", "div", "inverse", "sqrt", "long", "select", "bits", "leq", "neg", "exp", "equal"}
+var emuChains = []string{"mul", "muladdsub", "div", "inverse", "sqrt", "long", "select", "bits", "leq", "neg", "exp", "equal", "short"}
 
 func emuCases() []*gcase {
 	var out []*gcase
